@@ -648,6 +648,48 @@ theorem machineB_spec (idna : Idna) (b : Url) (hb : BaseOk b) (input : Bytes) (h
             exact hclean
           exact afterScheme_spec idna scheme hsp restp query frag hid hnoq' hcl
 
+/-! ### the length limit and `set_href` -/
+/-- what the limit makes of the Standard's answer -/
+def outOfL (L : Nat) (input : Bytes) (o : Option Url) : Out :=
+  match o with
+  | some u => if input.length ≤ L ∧ getHrefSize (UR.recOf u) ≤ L then .ok (UR.recOf u) else .invalid
+  | none => .invalid
+
+theorem limited_outOf (L : Nat) (input : Bytes) (o : Option Url) : limited L input (outOf o) = outOfL L input o := by
+  unfold limited outOfL
+  cases o with
+  | none => simp [outOf]
+  | some u =>
+    simp only [outOf]
+    by_cases h1 : input.length > L
+    · have : ¬ input.length ≤ L := by omega
+      simp [h1, this]
+    · have h1' : input.length ≤ L := by omega
+      by_cases h2 : getHrefSize (UR.recOf u) > L
+      · have : ¬ getHrefSize (UR.recOf u) ≤ L := by omega
+        simp [h1, h2, this]
+      · have : getHrefSize (UR.recOf u) ≤ L := by omega
+        simp [h1, h2, h1', this]
+
+/-- `url::set_href` = the Standard's href setter, within the limit -/
+theorem setHrefR_eq (idna : Idna) (L : Nat) (u : Url) (v : Bytes) (hid : ∀ d, HP.IdnaAt idna d)
+    (hclean : HS.bracketClean (schemeSpecial v) false (hostStart v) = true) :
+    setHrefR idna L (UR.recOf u) v =
+      match parse idna v none with
+      | some n => if v.length ≤ L ∧ getHrefSize (UR.recOf n) ≤ L then (UR.recOf n, true) else (UR.recOf u, false)
+      | none => (UR.recOf u, false) := by
+  unfold setHrefR parseNoBaseL
+  rw [parseNoBase_spec idna v hid hclean, limited_outOf]
+  unfold outOfL
+  cases parse idna v none with
+  | none => rfl
+  | some n =>
+    simp only
+    by_cases h : v.length ≤ L ∧ getHrefSize (UR.recOf n) ≤ L
+    · have : ¬ getHrefSize (UR.recOf n) > L := by omega
+      simp [h, this]
+    · simp [h]
+
 /-! ### a plain sufficient condition for the bracket side condition -/
 theorem relAuthSlash_sub (sp : Bool) (r : Bytes) (sp' : Bool) (text : Bytes) (h : relAuthSlash sp r = some (sp', text)) :
     ∀ x ∈ text, x ∈ r := by
